@@ -11,21 +11,21 @@ Section Api.
   Variable fastloop : bool.
 
   Definition decompress_safe (srcm : mem) (srcSize cap : Z) (m0 : mem) :=
-    dec_generic fastloop false NoDict srcm srcSize cap 0 empty 0 m0.
+    dec_generic fastloop false NoDict srcm srcSize cap 0 0 empty 0 m0.
   Definition decompress_safe_partial (srcm : mem) (srcSize target cap : Z) (m0 : mem) :=
-    dec_generic fastloop true NoDict srcm srcSize (Z.min target cap) 0 empty 0 m0.
+    dec_generic fastloop true NoDict srcm srcSize (Z.min target cap) 0 0 empty 0 m0.
 
   (* LZ4_decompress_safe_usingDict / _partial_usingDict.  For PPrefix the dictionary
      bytes are in m0 at [-dictSize,0); for PExt they are in dictm at [0,dictSize). *)
   Definition decompress_usingDict (part : bool) (srcm : mem) (srcSize target cap : Z)
              (pl : placement) (dictm : mem) (dictSize : Z) (m0 : mem) :=
     let cap' := if part then Z.min target cap else cap in
-    if dictSize =? 0 then dec_generic fastloop part NoDict srcm srcSize cap' 0 empty 0 m0
+    if dictSize =? 0 then dec_generic fastloop part NoDict srcm srcSize cap' 0 0 empty 0 m0
     else match pl with
          | PPrefix =>
            if dictSize >=? 65536 - 1 then
-             dec_generic fastloop part WithPrefix64k srcm srcSize cap' (-65536) empty 0 m0
-           else dec_generic fastloop part NoDict srcm srcSize cap' (- dictSize) empty 0 m0
-         | PExt => dec_generic fastloop part UsingExtDict srcm srcSize cap' 0 dictm dictSize m0
+             dec_generic fastloop part WithPrefix64k srcm srcSize cap' (-65536) (- dictSize) empty 0 m0
+           else dec_generic fastloop part NoDict srcm srcSize cap' (- dictSize) (- dictSize) empty 0 m0
+         | PExt => dec_generic fastloop part UsingExtDict srcm srcSize cap' 0 0 dictm dictSize m0
          end.
 End Api.
